@@ -1,7 +1,7 @@
 #!/bin/bash
 # /tmp/seed/mk.sh Cxx : create worktree + prompt file for a seeding sub-agent
 p=$1; round=${2:-A}
-if [ "$round" = "B" ]; then k1=m3; k2=m4; else k1=m1; k2=m2; fi
+if [ "$round" = "B" ]; then k1=m3; k2=m4; elif [ "$round" = "C" ]; then k1=m5; k2=m6; else k1=m1; k2=m2; fi
 export SEED_K1=$k1 SEED_K2=$k2 SEED_ROUND=$round
 mkdir -p /tmp/seed
 wt=/tmp/seed/wt-$p; out=/tmp/seed/out-$p
@@ -11,7 +11,14 @@ mkdir -p $out/$k1 $out/$k2
 import json,sys,os
 pid=sys.argv[1]
 K1,K2,ROUND=os.environ["SEED_K1"],os.environ["SEED_K2"],os.environ["SEED_ROUND"]
-EXTRA = "" if ROUND != "B" else """
+EXTRA_C = """
+SPECIAL CONSTRAINT FOR THIS ROUND: both mutants MUST be located in the ENCLOSING / GLUE module(s) among the files listed below
+(the `layer.py` / `device.py` style file that instantiates the leaf block and wires it to its neighbours), NOT in the leaf block
+that implements the mechanism. Typical sites: how a sub-block's ports are connected, qualified (&, |, ~), registered or muxed; which
+signal of several similar ones is wired where; enable/hold/reset wiring; arbitration order; constants passed to a constructor.
+The demo must therefore simulate the enclosing module (or enough of it) -- a demo on the leaf block alone cannot fail.
+"""
+EXTRA = EXTRA_C if ROUND == "C" else "" if ROUND != "B" else """
 SPECIAL EMPHASIS FOR THIS ROUND: earlier mutants for this property already attacked the most obvious line of its main mechanism.
 Aim elsewhere this time -- second-order sites such as: glue/wiring of the anchored block inside its enclosing module (e.g. how a
 sub-block's ports are connected, qualified or registered), reset/initial values and what is (not) cleared on a restart/abort/reset path,
